@@ -10,7 +10,9 @@
    database/sql driver; the modelled requests (stream 1: Loki range/instant in four pipeline shapes, Tempo trace by id;
    stream 2: labels, label values, series, Tempo tags / tag values / search / TraceQL -- model/ReadFwd.v, outcome class
    AND number of SQL statements) are evaluated inside Coq: model = observed (mismatches), and the property's oracle
-   on the observed class (spec_violations). Mutated / random query bytes and the remaining read endpoints are checked
+   on the observed class (spec_violations). Stream 4: the Pyroscope read handlers (model/ReadProf.v: class AND statements).
+   Stream 5: start / end / step of Loki query_range through the float path, undefined float -> int64 conversions
+   (model/ReadConv.v). Mutated / random query bytes and the remaining read endpoints are checked
    for response + liveness + goroutine census only (a TEST, labelled so in the evidence).
 """
 import hashlib
@@ -453,7 +455,7 @@ def run(ck):
     ck.trusted += [
         "C12: the PromQL engine, the participle parsers, fastjson/protobuf decoders and database/sql are exercised by the harness, not modelled",
         "C12: the LTS abstracts label maps, message text and float values; one LTS message per rows.Next(); real-time bounds are not proved (termination = no infinite schedule)",
-        "C12: allocation of more than 2^27 float64 is modelled as a failure (unreachable for accepted requests since the caps of 5180be1: theorem accepted_requests_have_safe_context); int64 wrap-around is modelled for the matrix window (d660aeb) and the subquery sums, not for the float -> int64 conversion of parameters beyond 2^63",
+        "C12: allocation of more than 2^27 float64 is modelled as a failure (unreachable for accepted requests since the caps of 5180be1: theorem accepted_requests_have_safe_context); int64 wrap-around is modelled for the matrix window (d660aeb) and the subquery sums; an undefined float -> int64 conversion is ANY integer in the theorems, the platform's value in the tie",
         "C12: the PromQL engine's evaluator windows (a subquery is evaluated over the query window + its range + the ranges around it; one point reserved per step and series) are transcribed from the vendored promql/engine.go; PromQL durations are whole milliseconds",
         "C12: translate/goinv_reader's control-flow models: may-panic = index, slice, dereference, assertion, division, send, and calls: a call resolved by name to a function of the reader packages (plain identifier of the package, or pkg.F through an import of a reader package) is judged by the callee closure (least fixpoint; a callee that starts with an effective recover does not propagate), any other call may panic unless its name is on a small safe list and no reader method of that name can panic; resolution is by name, without go/types; a deferred closure containing the release counts as a deferred release; one model per function body / literal (a lock handed to a callee is not followed)",
         "C12: Pyroscope handlers: the participle selector parser, protobuf / JSON body decoding, the pprof payload merger (property C16 models it) and the SQL planners are exercised, abstracted in model/ReadProf.v to parses / plans / fails; result sets are typed as the statement's columns (a wrongly typed cell inside an array or tuple is not generated: ClickHouse cannot return it)",
@@ -705,7 +707,7 @@ def run(ck):
     ck.coverage["rule"] += ("requests served by the real reader router in child processes; modelled: Loki query_range/query in 4 pipeline shapes + parse errors with "
                             "start/end/step/limit absent, malformed, zero, negative, reversed, sub-millisecond, huge, result sets of 0..320 rows with conversion errors, early end, "
                             "failing statement, non-JSON lines, fingerprint 0, rows outside the statement's window, windows at and beyond the point / range-window caps; Tempo trace by id with undecodable / panicking / unknown payloads; "
-                            "forwarding endpoints (Loki / Prometheus labels, label values, series, Tempo tags, tag values v1/v2, search by tags, TraceQL search: class and statements issued compared with the model); test-only: the other endpoint families with "
+                            "forwarding endpoints (Loki / Prometheus labels, label values, series, Tempo tags, tag values v1/v2, search by tags, TraceQL search: class and statements issued compared with the model); Pyroscope handlers (JSON / protobuf bodies, typed result sets with NULL cells, short type ids, garbage payloads, cyclic trees: class and statements compared with the model); Loki range requests with NaN / infinite / out-of-range / exponent-form start, end, step (class compared with the model); test-only: the other endpoint families with "
                             "valid, mutated and random query bytes and random result sets. non-trivial = a SQL statement was issued (or the request did not end in a response); distinct by request+script content. ")
     ck.extra["input_distribution"] = hist
     ck.extra["observed_outcomes"] = outc
